@@ -717,7 +717,8 @@ func astFromValue(value interface{}, ttype Type) ast.Value {
 	}
 	valueVal := reflect.ValueOf(value)
 	if valueVal.Type().Kind() == reflect.Ptr {
-		valueVal = valueVal.Elem()
+		// the literal describes the value pointed to, not the pointer
+		return astFromValue(valueVal.Elem().Interface(), ttype)
 	}
 
 	// Convert Golang slice to GraphQL list. If the Type is a list, but
